@@ -1,7 +1,8 @@
-CONSTANTS MaxRows = 1
-          MaxRowsY = 1
+CONSTANTS MaxRows = 2
+          MaxRowsY = 2
           MaxSteps = 2
-          Stride = 64
+          NKeys = 6
+          Stride = 32
           Gen = FALSE
           Emit = "none"
           Variant = "plain"
